@@ -14,7 +14,7 @@ def getter_spec(nm, kind, var, named, dflt):
 FNS = [
   F('DescriptorManager::new', trust=True, spec="        ensures typed(r@),   // the store only ever holds entries written by the typed setters"),
   F('DescriptorManager::set', trust=True, spec="        ensures final(self)@ == old(self)@.insert(kv(key), value),"),
-  F('DescriptorManager::get', props=['C01', 'C18'], spec="        ensures r == (if self@.dom().contains(kv(key)) { Some(self@[kv(key)]) } else { None::<Descriptor> }),  // @C18 store.get"),
+  F('DescriptorManager::get', props=['C01!', 'C18'], spec="        ensures r == (if self@.dom().contains(kv(key)) { Some(self@[kv(key)]) } else { None::<Descriptor> }),  // @C18 store.get"),
 ]
 for (nm, kind, var, named, dflt) in KINDS:
     name_arg = {'unary': 'op', 'binary': 'op', 'postfix': 'op', 'function': 'name', 'reference': 'name'}.get(nm)
